@@ -145,6 +145,10 @@ func decider(s, f, d uint64, errs string, ign bool, mf uint64, mfr int) string {
 // cliSuite: the exit status of the real `f1 run constant` command (an error
 // returned by the cobra command) follows the same rule, for whole runs in
 // virtual time with scripted outcomes.
+// every way setup or teardown can fail
+var phases = []string{"ok", "setup-fails", "teardown-fails", "setup-Fail", "setup-panics(string)", "setup-panics(error)", "teardown-Fail",
+	"teardown-panics(string)", "teardown-panics(error)", "teardown-runtime-error"}
+
 func cliSuite(full bool) hlib.Suite {
 	return hlib.Suite{Name: fmt.Sprintf("cli-exit-status/full=%v", full), Weight: 2, Run: func(r *hlib.Rec) {
 		mfs := []uint64{0, 1, 2}
@@ -160,7 +164,7 @@ func cliSuite(full bool) hlib.Suite {
 					continue
 				}
 				for _, drops := range []bool{false, true} {
-					for _, phase := range []string{"ok", "setup-fails", "teardown-fails"} {
+					for _, phase := range phases {
 						for _, ign := range []bool{false, true} {
 							for _, mf := range mfs {
 								for _, mfr := range rates {
@@ -187,11 +191,25 @@ func cliSuite(full bool) hlib.Suite {
 									input := fmt.Sprintf("f1 run %s with %d passing then %d failing iterations, %s", strings.Join(args, " "), ns, nf, phase)
 									r.SampleCase(input)
 									res := hlib.RunCLIScenario(args, 60*time.Second, func(t *f1testing.T) f1testing.RunFn {
-										if phase == "setup-fails" {
+										switch phase {
+										case "setup-fails":
 											t.FailNow()
-										}
-										if phase == "teardown-fails" {
+										case "setup-Fail":
+											t.Fail()
+										case "setup-panics(string)":
+											panic("setup panics")
+										case "setup-panics(error)":
+											panic(errors.New("setup panics"))
+										case "teardown-fails":
 											t.Cleanup(func() { t.FailNow() })
+										case "teardown-Fail":
+											t.Cleanup(func() { t.Fail() })
+										case "teardown-panics(string)":
+											t.Cleanup(func() { panic("teardown panics") })
+										case "teardown-panics(error)":
+											t.Cleanup(func() { panic(errors.New("teardown panics")) })
+										case "teardown-runtime-error":
+											t.Cleanup(func() { var m map[string]int; m["x"] = 1 })
 										}
 										return func(t *f1testing.T) {
 											id, _ := strconv.Atoi(t.Iteration)
